@@ -112,6 +112,70 @@ type BResult struct {
 	Err       string
 }
 
+// pyStageModule is the stage code of every stage of a program with Py set:
+// it passes what the python adapter handed it to "vstage --pyeval" (the same
+// stage library), acts out process-level faults itself, and returns the
+// result through the adapter.
+const pyStageModule = `import json
+import os
+import subprocess
+import sys
+import time
+
+import martian
+
+
+def _call(args, outs=None, chunk_defs=None, chunk_outs=None):
+    req = {
+        "argv": sys.argv,
+        "args": args.items(),
+        "outs": outs.items() if outs is not None else None,
+        "chunk_defs": [c.items() for c in chunk_defs] if chunk_defs is not None else None,
+        "chunk_outs": [c.items() for c in chunk_outs] if chunk_outs is not None else None,
+    }
+    proc = subprocess.run([os.environ["VERIF_VSTAGE"], "--pyeval"],
+                          input=json.dumps(req).encode("utf-8"), stdout=subprocess.PIPE)
+    resp = json.loads(proc.stdout.decode("utf-8") or "{}")
+    fault = resp.get("fault")
+    if fault == "py-exception":
+        raise ValueError("verif: python stage raised an exception")
+    if fault == "errors-early":
+        martian.throw("verif: stage raised an error before producing output")
+    if fault == "assert-early":
+        martian.exit("verif: stage assertion")
+    if fault == "sys-exit":
+        sys.exit(3)
+    if fault == "exit1":
+        os._exit(1)
+    if fault == "kill9":
+        os.kill(os.getpid(), 9)
+    if fault == "segv":
+        os.kill(os.getpid(), 11)
+    if fault == "kill-monitor":
+        os.kill(os.getppid(), 9)
+        time.sleep(5)
+    if resp.get("error"):
+        martian.throw(resp["error"])
+    return resp
+
+
+def split(args):
+    return {"chunks": _call(args)["chunks"]}
+
+
+def _set(outs, resp):
+    for key, value in (resp.get("outs") or {}).items():
+        setattr(outs, key, value)
+
+
+def main(args, outs):
+    _set(outs, _call(args, outs))
+
+
+def join(args, outs, chunk_defs, chunk_outs):
+    _set(outs, _call(args, outs, chunk_defs, chunk_outs))
+`
+
 var tierbRoot string
 
 // TierBRoot returns the directory bin/build-tierb populated (building it on
@@ -200,6 +264,15 @@ func PrepareB(p *progen.Program, opts *BOptions) (dir string, err error) {
 		}
 		for _, s := range p.Stages {
 			os.Remove(filepath.Join(mroDir, s.Name))
+			if p.Py {
+				// a python stage module on the repository's python adapter
+				md := filepath.Join(mroDir, "pystages", s.Name)
+				os.MkdirAll(md, 0o755)
+				if err = os.WriteFile(filepath.Join(md, "__init__.py"), []byte(pyStageModule), 0o644); err != nil {
+					return dir, err
+				}
+				continue
+			}
 			if err = os.Symlink(filepath.Join(root, "vstage"), filepath.Join(mroDir, s.Name)); err != nil {
 				return dir, err
 			}
@@ -303,7 +376,7 @@ func StartB(p *progen.Program, opts *BOptions) (*BRun, error) {
 	cmd := exec.Command(filepath.Join(root, inst, "bin", "mrp"), args...)
 	cmd.Dir = dir
 	env := []string{"PATH=/usr/local/bin:/usr/bin:/bin", "HOME=" + dir, "MROPATH=" + filepath.Join(dir, "mro"),
-		"VERIF_CTL=" + b.Ctl, "MROFLAGS=", "TMPDIR=" + dir, "USER=verif", "LANG=C"}
+		"VERIF_CTL=" + b.Ctl, "VERIF_VSTAGE=" + filepath.Join(root, "vstage"), "MROFLAGS=", "TMPDIR=" + dir, "USER=verif", "LANG=C"}
 	if opts.KillAt > 0 {
 		env = append(env, "VERIF_KILL_AT="+strconv.Itoa(opts.KillAt))
 		if opts.KillSig != "" {
